@@ -436,7 +436,20 @@ func runC14(c *core.Ctx) {
 
 	// distinct-member loop
 	loops := eng.FindSliceLoops(fn, isBookkeepers)
-	if len(loops) != 1 {
+	if len(loops) == 0 {
+		// a loop over a PART of the list (header.Bookkeepers[:m], [1:], …) checks membership for some keys only,
+		// while VerifyMultiSignature is handed the whole list
+		partial := eng.FindSliceLoops(fn, func(v ssa.Value) bool {
+			sl, ok := v.(*ssa.Slice)
+			return ok && isBookkeepers(sl.X)
+		})
+		if len(partial) > 0 {
+			c.Violate("C14.distinct-members", fn, "membership and distinctness are checked for EVERY key handed to VerifyMultiSignature", c.P.Rel(partial[0].Cond.Pos()),
+				"the membership loop ranges over a sub-slice of header.Bookkeepers; keys outside it are accepted as signers without being validators")
+		} else {
+			c.Broken("C14.distinct-members", fn, "loop over header.Bookkeepers", c.P.Rel(fn.Pos()), "0 loops")
+		}
+	} else if len(loops) != 1 {
 		c.Broken("C14.distinct-members", fn, "loop over header.Bookkeepers", c.P.Rel(fn.Pos()), sprintf("%d loops", len(loops)))
 	} else {
 		lp := loops[0]
